@@ -536,6 +536,11 @@ def run(ctx):
     ctx.assume("restored octets = the message up to its last counted record; the library leaves the stale TSIG octets behind it (Message::remove_last_additional)")
     ctx.assume("error / other-data fields of the 2nd and later answers of a sequence are not covered by the MAC (RFC 8945 5.3.1: timers only); changing them is not tampering with signed octets")
     ctx.assume("a TSIG whose other-data is neither empty nor 6 octets cannot be interpreted (RFC 8945 4.2): FORMERR; a repair that instead signs the raw other-data (BADSIG) would need the table in MC_Tsig!ExpectAfter widened")
+    ctx.assume("an algorithm name spelled in another case may be recognised (domain names compare case-insensitively, the digest takes the canonical form) or refused as BADKEY; a compressed owner / algorithm name may be accepted or refused as FORMERR (RFC 8945 4.2: the algorithm name MUST NOT be compressed)")
+    ctx.assume("a TSIG RR whose CLASS is not ANY or whose TTL is not 0 is FORMERR (cannot be interpreted, RFC 8945 4.2 / 5.2) or BADSIG (both are digest input, 4.3.3); on a second or later answer of a sequence, whose digest covers only the timers, it may also be accepted")
+    ctx.assume("a key name / algorithm name with more or fewer labels than the configured one is an unknown key: BADKEY (RFC 8945 5.2.1)")
+    ctx.assume("Key::new / Key::generate: None = the native length; FromStr of the absolute form ('hmac-sha256.') or of another case may succeed or fail")
+    ctx.assume("compression pointers of generated behaviours point at the second flags octet (0 in requests and NOERROR answers: a root label); recorded traces point at the question name and its root label")
     ctx.assume("result of the client on an unsigned error answer compared by class (any error); time fields of unsigned error answers not compared")
     ctx.assume("message contents: one question, 0-1 answer and 0-1 additional A records, uncompressed names; times below 2^31")
 
